@@ -179,7 +179,7 @@ impl Property for C13 {
     }
     fn rule(&self) -> String {
         "byte strings for verify / verify_rln_proof / verify_with_roots (message and roots buffers) / recover_id_secret (both buffers; each altered message is paired with another member's message, with itself and — in both orders — with the unaltered message it was derived from, which yields equal x with different y), derived from a pool of accepted messages: truncation to a generated length (and every truncation length, enumerated, for the first pool message), declared signal length in {0, len-1, len+1, 2^31, 2^32, 2^63, u64::MAX-7, u64::MAX, len+tail, len + 2^k for k in 8/16/32/48/63, len + 3*2^32}, random bytes in one 32-byte field, fully random strings of length 0..600+, aliases v+k*p (k=1..4) of any subset of the five public values, single bit flips, trailing garbage, arbitrary roots buffers and root sets with a trailing partial element. \
-         Oracle: never a panic; true only if proof and value bytes are identical to the accepted message's canonical bytes, Keccak_ref(signal) = x and the root condition holds; and an input that still is the accepted message must be accepted. \
+         Oracle: never a panic; true only if proof and value bytes are identical to the accepted message's canonical bytes, Keccak_ref(signal) = x and the root condition holds; and an input that still is the accepted message must be accepted. A quarter of the cases have every verification call made by a second long-lived thread of the caller (taking turns with the thread that proves and changes the tree). \
          non-trivial = truncation inside a field, an inconsistent length field, an alias, a bit flip or random field content; distinct by case content".into()
     }
     fn assumptions(&self) -> Vec<String> {
@@ -226,6 +226,12 @@ impl Property for C13 {
         let (input, roots) = build_input(g, c.target, &c.mutation, &pool.root);
         crate::gens::set_io_style((case_hash(c) % 4) as u8);
         o.label(format!("io-style/{}", crate::gens::io_style()));
+        // a quarter of the cases: verification is done by a second long-lived thread of the caller
+        let second = (case_hash(c) / 4) % 4 == 1;
+        crate::pipeline::verify_on_second_thread(second);
+        if second {
+            o.label("verified-by-a-second-thread");
+        }
         o.label(format!("target/{:?}", c.target));
         let mname = format!("{:?}", c.mutation);
         let mname = mname.split(|ch: char| !ch.is_alphanumeric()).next().unwrap_or("").to_string();
